@@ -1027,9 +1027,13 @@ pub async fn start_replication_supervisor(
                         let start_at = start_at_str.parse::<u64>().unwrap();
 
                         //send missing data to primary
-                        let cluster_state = dbs.cluster_state.lock().unwrap();
-                        let members = cluster_state.members.lock().unwrap();
-                        match members.get(&name) {
+                        let member = {
+                            // Copied out so the cluster locks are not held while the databases are read
+                            let cluster_state = dbs.cluster_state.lock().unwrap();
+                            let members = cluster_state.members.lock().unwrap();
+                            members.get(&name).cloned()
+                        };
+                        match member {
                             Some(member) => {
                                 let commands = get_pendding_opps_since(start_at, &dbs);
                                 log::debug!(
